@@ -18,7 +18,7 @@ Definition fsub : sf -> sf -> sf := SFsub prec emax.
 Definition fmul : sf -> sf -> sf := SFmul prec emax.
 Definition fdiv : sf -> sf -> sf := SFdiv prec emax.
 Definition flt : sf -> sf -> bool := SFltb.      (* Go: a < b *)
-Definition fgt (a b : sf) : bool := SFltb b a.   (* Go: a > b *)
+Definition fgt (a b : sf) : bool := flt b a.     (* Go: a > b *)
 Definition feq : sf -> sf -> bool := SFeqb.      (* Go: a == b *)
 Definition fle : sf -> sf -> bool := SFleb.      (* Go: a <= b *)
 
